@@ -158,6 +158,29 @@ def slist_method(I_, ref, o, name, args, kws, st, ctx, k, node):
       pos = concretize(zp)
     attrs = o.data["attrs"]
     names = list(attrs.keys())
+    from .models import slist_elem_values
+    if any(nm == "is_none" or nm.isdigit() for nm in names):
+      ev_ = slist_elem_values(I_, st, ref, item)
+      if ev_ is None:
+        raise Unsupported("append/insert into a symbolic list of tuples with other tracked attributes")
+      o2 = st.obj(ref)
+      zp2 = zint(pos)
+      q = z3.Int(fresh_name("q"))
+      o2.data["attrs"] = dict(o2.data["attrs"])
+      for nm in names:
+        old = o2.data["attrs"][nm]
+        v = ev_[nm]
+        if v is None:
+          v = z3.Const(fresh_name("unset_" + nm), old.sort().range())
+        elif old.sort().range() == z3.BoolSort():
+          v = zbool(v) if not is_sym(v) else v
+        else:
+          v = zint(v)
+        o2.data["attrs"][nm] = z3.Lambda([q], z3.If(q < zp2, z3.Select(old, q),
+                                                  z3.If(q == zp2, v, z3.Select(old, q - 1))))
+      o2.data["len"] = concretize(zint(o2.data["len"]) + 1)
+      o2.data["ghost_inserted_at"] = pos
+      return k(st, None)
     def step(j_, st2, vals):
       if j_ >= len(names):
         o2 = st2.obj(ref)
